@@ -203,6 +203,21 @@ def check_property_file(ctx, name, allow_axioms=()):
     ctx.oblig("axiom-allowlist:%s" % name, good, "used=%s allowed=%s" % (sorted(used), sorted(allowed)))
     for i in range(n_thm):
         ctx.oblig("theorem:%s#%d" % (name, i), True)
+    if ctx.tier == "thorough":
+        # independent re-check of the compiled property file and everything it depends on
+        rc3, out3 = sh(["coqchk", "-o", "-silent", "-Q", ".", "NutsV", "NutsV.Properties.%s" % name], cwd=COQ, timeout=2400)
+        ctx.checker_cmds.append("coqchk -o -silent -Q coq NutsV NutsV.Properties.%s" % name)
+        axs = []
+        m = re.search(r"\* Axioms:(.*?)\n\s*\n", out3, re.S)
+        if m:
+            axs = [a.strip() for a in m.group(1).split("\n") if a.strip() and a.strip() != "<none>"]
+        short = set(a.replace("Coq.Logic.", "").replace("Coq.Reals.", "") for a in axs)
+        clean = rc3 == 0 and short <= allowed and all(
+            re.search(r"\* %s: <none>" % re.escape(k), out3) for k in
+            ("Constants/Inductives relying on type-in-type", "Constants/Inductives relying on unsafe (co)fixpoints",
+             "Inductives whose positivity is assumed"))
+        ctx.oblig("coqchk:%s" % name, clean, out3[-1500:])
+        ctx.notes.setdefault("coqchk_axioms", {})[name] = sorted(short)
     ctx.notes.setdefault("axioms_used", {})[name] = sorted(used)
     ctx.notes.setdefault("theorems", {})[name] = re.findall(r"(?m)^(?:Theorem|Corollary|Example)\s+(\w+)", src)
     return good and ok2, out2
